@@ -433,8 +433,21 @@ func (x *Extractor) cacheStoreOrLoad(refs []Reference, tp reflect.Type, res any)
 	if v, ok := x.cache[extractorKey{ref: refs[0], tp: tp}]; ok {
 		return v
 	}
+	// A later reference of the chain may already be published, because another
+	// decode entered the chain further down: adopt that value and only fill
+	// the gaps, so that every reference keeps the value it was first published
+	// with.
+	for _, ref := range refs[1:] {
+		if v, ok := x.cache[extractorKey{ref: ref, tp: tp}]; ok {
+			res = v
+			break
+		}
+	}
 	for _, ref := range refs {
-		x.cache[extractorKey{ref: ref, tp: tp}] = res
+		key := extractorKey{ref: ref, tp: tp}
+		if _, ok := x.cache[key]; !ok {
+			x.cache[key] = res
+		}
 	}
 	return res
 }
